@@ -144,4 +144,5 @@ def run(prog, rep, tier, cfg):
     # ---- running totals (amounts, power, datacap) accumulated in loops keep their earlier contributions
     X.accumulator_integrity('K12', 'running-totals', ['fil_actor_miner'], 'running totals of amounts')
     X.no_dropped_results('K14', 'results-not-discarded', ['fil_actor_miner'], 'no Result of a call is discarded')
+    X.tolerated_failures('K15', 'tolerated-failures', ['fil_actor_miner'], 'tolerated failures are the reviewed ones')
 
